@@ -586,7 +586,20 @@ class BasePool(typing.Generic[C]):
         started_at: float,
     ) -> None:
         self._log_to_snapshot(dbname=from_block.dbname, event='transfer-from')
-        await self._disconnect(from_conn, from_block)
+        try:
+            await self._disconnect(from_conn, from_block)
+        except Exception:
+            # The failure is already counted in _disconnect(), and the
+            # capacity taken by `from_conn` is released either way. We must
+            # still open the connection promised to `to_block`, or its
+            # `pending_conns` would never be decremented and its waiters
+            # would be blocked forever.
+            logger.error(
+                "Failed to discard a connection to backend database "
+                "before transfer: %s",
+                from_block.dbname,
+                exc_info=True,
+            )
         from_block.log_connection('transferred out')
         self._cur_capacity += 1
         await self._connect(to_block, started_at, 'transferred in')
